@@ -1283,17 +1283,31 @@ protected:
         }
       }
 
-      // Check request headers for connection preference
+      // Check request headers for connection preference. Connection is a
+      // comma-separated list of case-insensitive options (RFC 9110 §7.6.1): "close"
+      // always closes, and an HTTP/1.0 request only persists when it carries
+      // "keep-alive" (RFC 9112 §9.3).
+      bool closeOption = false;
+      bool keepAliveOption = false;
       auto connectionIt = req.headers.find("Connection");
       if (connectionIt != req.headers.end())
       {
         std::string connValue = connectionIt->second;
         std::transform(connValue.begin(), connValue.end(), connValue.begin(), ::tolower);
-        if (connValue == "close")
+        std::istringstream options(connValue);
+        std::string option;
+        while (std::getline(options, option, ','))
         {
-          shouldCloseConnection = true;
-          connectionHeader = "close";
+          option.erase(0, option.find_first_not_of(" \t"));
+          option.erase(option.find_last_not_of(" \t") + 1);
+          closeOption = closeOption || option == "close";
+          keepAliveOption = keepAliveOption || option == "keep-alive";
         }
+      }
+      if (closeOption || (httpReq.version.minor == 0 && !keepAliveOption))
+      {
+        shouldCloseConnection = true;
+        connectionHeader = "close";
       }
 
       // Build HTTP response
